@@ -129,9 +129,10 @@ Cfgs == [check : CheckIds, limit : LimitOpts, dict : {DictUnits}, hsize : HSizes
 
 RD0 == [st |-> "idle", pos |-> 1, blocks |-> 0, out |-> 0, bytes |-> 0, multi |-> FALSE, check |-> 0, nstreams |-> 0]
 
-Init ==
-  /\ cfg \in Cfgs /\ ws = W0 /\ calls = <<>> /\ file = <<>> /\ streams = <<>> /\ pads = <<>>
+InitWith(c) ==
+  /\ cfg = c /\ ws = W0 /\ calls = <<>> /\ file = <<>> /\ streams = <<>> /\ pads = <<>>
   /\ trail = "pending" /\ phase = "write" /\ rd = RD0
+Init == \E c \in Cfgs : InitWith(c)
 
 Write(n) ==
   /\ phase = "write" /\ ws.total + n <= MaxUnits /\ ws.nb < MaxBlocks
